@@ -8,7 +8,7 @@
         | (scall_custom zCODE xMSG xCAUSE) | (sclosed_call) | (sclosed_push) | (sdial_fail xCAUSE)
         | (smtype_405) | (spush_404) | (sunprepared) | (swrite_failed) | (sproxy_call FWD)
         | (sproxy_call_panicked FWD xCAUSE) | (sproxy_push FWD)
-        | (sbinder sSHARED sFIELD xCAUSE) | (sauth_fail) | (sauth_multi) | (ssecure_fail TRIPLE)
+        | (sapp_custom TRIPLE TRIPLE) | (sbinder sSHARED sFIELD xCAUSE) | (sauth_fail) | (sauth_multi) | (ssecure_fail TRIPLE)
      FWD = sok | (ssent sPKG sNAME) | (sobj TRIPLE);  TRIPLE = (zCODE xMSG snone|(ssome xCAUSE))
    observations = ((snil|TRIPLE ...)  per operation
                    (TRIPLE ...)       every status handed out, re-read at the end
@@ -90,6 +90,13 @@ Definition event_of_val (t : table) (v : val) : option event :=
             match fwd_of_val f with
             | Some _ => Some (ERemoteCopy WQuery (root "statInternalServerError") c)
             | None => None
+            end
+          else None
+      | [a; b] =>
+          if keq k "app_custom" then
+            match status_of_val a, status_of_val b with
+            | Some base, Some ann => Some (EAppCustom base ann)
+            | _, _ => None
             end
           else None
       | [x] =>
